@@ -354,3 +354,25 @@ def _r_c09_tie(f):
     o2 = _run_pinned(b, keep_less_specific=False)
     strip = lambda o: sorted(l.strip() for l in o.split("\n") if "example.org/p" in l or "Cardinality" in l)
     return strip(o1) != strip(o2)
+
+
+# ------------------------------------------------------------------ C05 / C11: rdflib serialises `sh:path rdf:type` without declaring rdf:
+@trigger("shacl_rdf_prefix_not_declared")
+def _t_shacl_rdf(f, obs):
+    return obs.get("kind") == "exception" and 'Prefix "rdf:" not bound' in obs.get("msg", "") \
+        and obs["cfg"]["inst_prop"] != "http://www.w3.org/1999/02/22-rdf-syntax-ns#type"
+
+
+@replayer("shacl_rdf_prefix_not_declared")
+def _r_shacl_rdf(f):
+    import common, rdflib
+    from shexer.shaper import Shaper
+    from shexer.consts import SHACL_TURTLE
+    nt = "".join(l + " .\n" for l in [_e('a') + " " + _e('inst') + " " + _e('C'), _e('a') + " " + _T + " " + _e('D')])
+    out = Shaper(raw_graph=nt, all_classes_mode=True, instantiation_property="http://example.org/inst",
+                 namespaces_dict={"http://www.w3.org/1999/02/22-rdf-syntax-ns#": "rdf"}).shex_graph(string_output=True, output_format=SHACL_TURTLE)
+    try:
+        rdflib.Graph().parse(data=out, format="turtle")
+        return False
+    except Exception:
+        return True
